@@ -29,6 +29,7 @@ from taskiq.schedule_sources.label_based import LabelScheduleSource
 from taskiq.scheduler.scheduled_task import ScheduledTask
 from taskiq.scheduler.scheduler import TaskiqScheduler
 from source_driver import CallableObj, deliver     # the C16 helpers: how a plain def hands an awaitable back
+from source_driver import dec                      # ... and how a case spells values that are not JSON natives
 from vloop import VLoop
 
 EP = dt.datetime(1970, 1, 1, tzinfo=dt.timezone.utc)
@@ -270,7 +271,10 @@ def payload_of(e):
     kwargs = p.get("kwargs")
     if car == "kwargs":
         kwargs = dict(kwargs or {}, sid=e["sid"])
-    labels = p.get("labels")
+    # label values may be spelled the way the C16 cases spell values that are not JSON natives ({"__enum__": ["Kind", "A"]} = a
+    # member of a str-mixin Enum, {"__sub__": ["int", 3]} = an instance of an int subclass ...): decoded by source_driver.dec -
+    # the identity on everything else
+    labels = dec(p.get("labels"))
     if car == "labels":
         labels = dict(labels or {}, sid=e["sid"])
     return args, (None if kwargs is None else dict(kwargs)), (None if labels is None else dict(labels)), dict(p.get("extra") or {})
@@ -409,7 +413,8 @@ class Lab(Common, LabelScheduleSource):
         for name in sorted({e["task"] for e in spec["entries"]}):
             def fn(*a, **k):
                 return None
-            self.tasks[name] = broker.register_task(fn, task_name=name, schedule=[])
+            # `tlabels`: labels of the TASK itself (the label source merges them into every schedule of the task)
+            self.tasks[name] = broker.register_task(fn, task_name=name, schedule=[], **dec((spec.get("tlabels") or {}).get(name) or {}))
         # dicts with neither `cron` nor `time` in a task's schedule list (the source skips them): [task, position, dict]
         self.noise = [(t, pos, dict(d)) for t, pos, d in spec.get("noise", [])]
 
